@@ -1,4 +1,4 @@
-"""C11 - task filters keep exactly the selected tasks and leave a runnable track (API part).
+"""C11 - task filters keep exactly the selected tasks and leave a runnable track.
 
 Monitor: a generated track (1-3 challenges, sequential and parallel elements, names / operation types / tags from small,
 deliberately overlapping alphabets) is filtered by the real TaskFilterTrackProcessor, configured the way the command
@@ -8,7 +8,8 @@ selected if at least one filter matches), every remaining task is compared with 
 monitors (real Allocator, real Driver bookkeeping walked through every join point) run on every filtered schedule.
 Malformed filter values have to raise SystemSetupError.
 
-The end-to-end class (filtered track through the simulated race) is a second workload: add it to WORKLOADS.
+The end-to-end class (props/c11_race.py) runs filtered tracks through a complete simulated race with --include-tasks / --exclude-tasks on
+rally's real command line and checks the trace with C01's checker.
 """
 import copy
 
@@ -32,9 +33,10 @@ ASSUMPTIONS = [
 ]
 C02_CLAUSES = ["rectangular", "join-aligned", "exact-cover", "steps-progress", "driver-progress", "driver-clients-exactly-once"]
 REQUIRED_CLAUSES = [
-    "wellformed-accepted", "kept-exactly", "order-preserved", "properties-unchanged", "no-empty-parallel", "malformed-rejected",
+    "e2e:executed-exactly-kept", "wellformed-accepted", "kept-exactly", "order-preserved", "properties-unchanged", "no-empty-parallel", "malformed-rejected",
 ] + ["c02:" + c for c in C02_CLAUSES]
 REQUIRED_FEATURES = {
+    "e2e": 20, "e2e:include": 5, "e2e:exclude": 5,
     "include": 100, "exclude": 100, "filter-name": 100, "filter-type": 100, "filter-tag": 100, "mixed-kinds": 50,
     "parallel-all-matched": 30, "parallel-some-matched": 30, "parallel-none-matched": 30, "exclude-matches-whole-parallel": 20,
     "everything-removed": 10, "nothing-removed": 10, "multi-challenge": 50, "confusable-value": 30, "malformed": 50, "built-by-loader": 20,
@@ -347,8 +349,12 @@ class _NoCount:
 _SHRUNK = {}
 
 # (name, weight, function(ctx, rng)): the shard loop deals cases to the workload classes in proportion to their weights
+from props import c11_race  # noqa: E402
+
+# one simulated race costs about as much as 300 API cases
 WORKLOADS = [
-    ("api", 1, api_case),
+    ("api", 299, api_case),
+    ("e2e", 1, c11_race.race_case),
 ]
 
 
